@@ -221,15 +221,17 @@ impl InnerNodeManage {
         }
     }
 
-    fn update_process_range(&mut self) {
+    /// returns true when the range of this node changed
+    fn update_process_range(&mut self) -> bool {
         let new_range = self.get_current_process_range();
         if new_range == self.current_range {
-            return;
+            return false;
         }
         self.clear_timeout_process_range();
         self.history_ranges
             .push((self.current_range.clone(), now_millis()));
         self.current_range = new_range;
+        true
     }
 
     fn clear_timeout_process_range(&mut self) {
@@ -367,7 +369,11 @@ impl InnerNodeManage {
                 Self::client_invalid_instance(naming_actor, node);
             }
         }
-        self.update_process_range();
+        if self.update_process_range() {
+            // a node died (or came back): the registry actor must decide ownership with the new range,
+            // otherwise the services of the dead node are left without an owner
+            self.refresh_process_range();
+        }
     }
 
     /// verification hook: treat the given nodes as silent for longer than the liveness
